@@ -84,25 +84,45 @@ Proof.
   - intros k r. rewrite Hr. intros H. destruct (c_roots _ C _ _ H) as (n & Hn0 & Hp).
     pose proof (skel_some _ _ _ Hn0) as E. rewrite <- Hs in E.
     apply skel_inv in E as (n' & Hn' & Hp' & _). exists n'. split; auto. congruence.
-  - intros i n m Hi Hp. rewrite Hr. pose proof (skel_some _ _ _ Hi) as E. rewrite Hs in E.
-    apply skel_inv in E as (n0 & Hn0 & Hp0 & _). eapply c_pmodel; eauto. congruence.
   - intros i. rewrite allocated_skel, Hs, <- allocated_skel. intros Ha.
     destruct (c_depth _ C _ Ha) as (h & Hd). exists h. eapply depth_transfer; [|exact Hd].
     apply same_tree_parents. auto.
 Qed.
 
 (* orphans: nodes whose parent does not list them, up to a set S of exceptions *)
-Definition OrphSub (w : world) (S : id -> Prop) : Prop := forall c p, par w c p -> lists w p c \/ S c.
+Definition OrphE (w : world) (S : id -> Prop) : Prop := forall c p, par w c p -> lists w p c \/ S c.
 
-Lemma NoOrphan_OrphSub w : NoOrphan w <-> OrphSub w (fun _ => False).
-Proof. unfold NoOrphan, OrphSub. split; intros H c p Hp; specialize (H c p Hp); tauto. Qed.
-Lemma OrphSub_weaken w (S S' : id -> Prop) : (forall x, S x -> S' x) -> OrphSub w S -> OrphSub w S'.
+Lemma NoOrphanE_OrphE w : (forall c p, par w c p -> lists w p c) <-> OrphE w (fun _ => False).
+Proof. unfold OrphE. split; intros H c p Hp; specialize (H c p Hp); tauto. Qed.
+Lemma OrphE_weaken w (S S' : id -> Prop) : (forall x, S x -> S' x) -> OrphE w S -> OrphE w S'.
 Proof. intros HS H c p Hp. destruct (H c p Hp); auto. Qed.
 
-Lemma OrphSub_same_tree w w' S : same_tree w w' -> OrphSub w S -> OrphSub w' S.
+Lemma OrphE_same_tree w w' S : same_tree w w' -> OrphE w S -> OrphE w' S.
 Proof.
   intros (Hn & Hr & Hs) H c p. rewrite par_skel, lists_skel. setoid_rewrite Hs.
   rewrite <- par_skel, <- lists_skel. apply H.
+Qed.
+(* ---------- RootsOnly ---------- *)
+Lemma rootsonly_mono w w' :
+  (forall k r, nth_error (roots w) k = Some r -> nth_error (roots w') k = Some r) ->
+  (forall x m ks, skel w' x = Some (PModel m, ks) -> exists ks0, skel w x = Some (PModel m, ks0)) ->
+  RootsOnly w -> RootsOnly w'.
+Proof.
+  intros Hr Hp R i n m Hi Hm. pose proof (skel_some _ _ _ Hi) as E. rewrite Hm in E.
+  destruct (Hp _ _ _ E) as (ks0 & E0). apply skel_inv in E0 as (n0 & Hn0 & Hp0 & _). apply Hr. eapply R; eauto.
+Qed.
+
+Definition OrphSub (w : world) (S : id -> Prop) : Prop := OrphE w S /\ RootsOnly w.
+
+Lemma NoOrphan_OrphSub w : NoOrphan w <-> OrphSub w (fun _ => False).
+Proof. unfold NoOrphan, OrphSub. rewrite NoOrphanE_OrphE. tauto. Qed.
+Lemma OrphSub_weaken w (S S' : id -> Prop) : (forall x, S x -> S' x) -> OrphSub w S -> OrphSub w S'.
+Proof. intros HS (H & R). split; auto. eapply OrphE_weaken; eauto. Qed.
+Lemma OrphSub_same_tree w w' S : same_tree w w' -> OrphSub w S -> OrphSub w' S.
+Proof.
+  intros ST (H & R). split; [eapply OrphE_same_tree; eauto|]. destruct ST as (Hn & Hr & Hs).
+  apply (rootsonly_mono w w'); [rewrite Hr; auto | | exact R].
+  intros x m ks. rewrite Hs. eauto.
 Qed.
 Lemma NoOrphan_same_tree w w' : same_tree w w' -> NoOrphan w -> NoOrphan w'.
 Proof. rewrite !NoOrphan_OrphSub. apply OrphSub_same_tree. Qed.
@@ -148,8 +168,6 @@ Proof.
     + rewrite Ho in E by auto. apply skel_inv in E as (n0 & Hn0 & _ & <-). eapply c_nodup; eauto.
   - intros k r. rewrite Hr. intros H. destruct (c_roots _ C _ _ H) as (n & Hn0 & Hp).
     destruct (HP _ _ Hn0) as (n' & Hn' & E). exists n'. split; auto. congruence.
-  - intros x n m Hx Hp. rewrite Hr. assert (allocated w x) as (n0 & Hn0) by (apply Hal; eexists; eauto).
-    destruct (HP _ _ Hn0) as (n' & Hn' & E). eapply c_pmodel; eauto. congruence.
   - intros x Ha. apply Hal in Ha. destruct (c_depth _ C _ Ha) as (h & Hd). exists h.
     eapply depth_transfer; eauto.
 Qed.
@@ -169,9 +187,9 @@ Lemma upd1_lists_other w w' i p c : upd1 w w' i -> p <> i -> (lists w' p c <-> l
 Proof. intros (_ & _ & Ho) Hp. rewrite !lists_skel. rewrite Ho by auto. tauto. Qed.
 
 (* entries dropped from i's list become exceptions *)
-Lemma orphsub_drop w w' i pp ks ks' (S : id -> Prop) :
+Lemma orphe_drop w w' i pp ks ks' (S : id -> Prop) :
   upd1 w w' i -> skel w i = Some (pp, ks) -> skel w' i = Some (pp, ks') ->
-  OrphSub w S -> OrphSub w' (fun x => S x \/ (In x ks /\ ~ In x ks')).
+  OrphE w S -> OrphE w' (fun x => S x \/ (In x ks /\ ~ In x ks')).
 Proof.
   intros U Hi Hi' HO c p Hp. pose proof (upd1_par_back _ _ _ _ _ _ U Hi Hi' _ _ Hp) as Hp0.
   destruct (HO _ _ Hp0) as [Hl|Hs]; [|auto].
@@ -182,10 +200,10 @@ Proof.
 Qed.
 
 (* an entry c0 (already pointing to i) inserted into i's list stops being an exception *)
-Lemma orphsub_insert w w' i pp ks ks' c0 (S : id -> Prop) :
+Lemma orphe_insert w w' i pp ks ks' c0 (S : id -> Prop) :
   upd1 w w' i -> skel w i = Some (pp, ks) -> skel w' i = Some (pp, ks') ->
   (forall x, In x ks' <-> x = c0 \/ In x ks) -> par w c0 i ->
-  OrphSub w S -> OrphSub w' (fun x => S x /\ x <> c0).
+  OrphE w S -> OrphE w' (fun x => S x /\ x <> c0).
 Proof.
   intros U Hi Hi' Hks Hc0 HO c p Hp. pose proof (upd1_par_back _ _ _ _ _ _ U Hi Hi' _ _ Hp) as Hp0.
   destruct (N.eq_dec c c0) as [->|Hc].
@@ -224,10 +242,6 @@ Proof.
     assert (r <> i). { intros ->. rewrite (skel_some _ _ _ Hn0) in Hi. injection Hi as <- _. eapply Hnm; eauto. }
     pose proof (skel_some _ _ _ Hn0) as E. rewrite <- Ho in E by auto.
     apply skel_inv in E as (n' & Hn' & Hp' & _). exists n'. split; auto. congruence.
-  - intros x n m Hx Hp. rewrite Hr. assert (x <> i).
-    { intros ->. rewrite (skel_some _ _ _ Hx) in Hi'. injection Hi' as E _. congruence. }
-    pose proof (skel_some _ _ _ Hx) as E. rewrite Ho in E by auto.
-    apply skel_inv in E as (n0 & Hn0 & Hp0 & _). eapply c_pmodel; eauto. congruence.
   - (* depth *)
     assert (Hnew : forall x h, Depth w x h -> ~ AncS w i x -> Depth w' x h).
     { intros x h Hd. induction Hd as [x n Hx Ht | x n p h Hx Hp Hd IH]; intros Hna.
@@ -253,9 +267,9 @@ Proof.
     intros x Ha. apply Hal in Ha. destruct (c_depth _ C _ Ha) as (h & Hd). eauto.
 Qed.
 
-Lemma orphsub_reparent w w' i pp ks q (S : id -> Prop) :
+Lemma orphe_reparent w w' i pp ks q (S : id -> Prop) :
   upd1 w w' i -> skel w i = Some (pp, ks) -> skel w' i = Some (PElem q, ks) ->
-  OrphSub w S -> OrphSub w' (fun x => S x \/ x = i).
+  OrphE w S -> OrphE w' (fun x => S x \/ x = i).
 Proof.
   intros (Hn & Hr & Ho) Hi Hi' HO c p Hp.
   destruct (N.eq_dec c i) as [->|Hc]; [auto|].
@@ -306,11 +320,6 @@ Proof.
     + rewrite Ho in E by auto. apply skel_inv in E as (n0 & Hn0 & _ & <-). eapply c_nodup; eauto.
   - intros k r. rewrite Hr. intros H. destruct (c_roots _ C _ _ H) as (n & Hn0 & Hp).
     destruct (HP _ _ Hn0) as (n' & Hn' & E). exists n'. split; auto. congruence.
-  - intros x n m Hx Hp. rewrite Hr. destruct (N.eq_dec x (w_next w)) as [->|Hxi].
-    + rewrite (skel_some _ _ _ Hx) in Hi. injection Hi as E _.
-      destruct Hpp as [->|(q & -> & _)]; congruence.
-    + pose proof (skel_some _ _ _ Hx) as E. rewrite Ho in E by auto.
-      apply skel_inv in E as (n0 & Hn0 & Hp0 & _). eapply c_pmodel; eauto. congruence.
   - intros x Ha. apply Hal in Ha as [Ha| ->].
     + destruct (c_depth _ C _ Ha) as (h & Hd). exists h. eapply depth_transfer; eauto.
     + apply skel_inv in Hi as (n' & Hn' & Hp' & _). destruct Hpp as [->|(q & -> & Hq)].
@@ -319,9 +328,9 @@ Proof.
         eapply depth_transfer; eauto.
 Qed.
 
-Lemma orphsub_alloc w w' pp (S : id -> Prop) :
+Lemma orphe_alloc w w' pp (S : id -> Prop) :
   Core w -> alloc1 w w' -> skel w' (w_next w) = Some (pp, []) ->
-  OrphSub w S -> OrphSub w' (fun x => S x \/ (x = w_next w /\ pp <> PNone)).
+  OrphE w S -> OrphE w' (fun x => S x \/ (x = w_next w /\ pp <> PNone)).
 Proof.
   intros C (Hn & Hr & Ho) Hi HO c p Hp. pose proof (core_fresh_none _ C) as Hf.
   destruct (N.eq_dec c (w_next w)) as [->|Hc].
@@ -368,22 +377,15 @@ Proof.
       * cbn in H. injection H as <-. apply skel_inv in Hi as (n' & Hn' & Hp' & _). exists n'. split; auto.
         rewrite Hp'. do 2 f_equal. lia.
       * cbn in H. destruct d; discriminate.
-  - intros x n m Hx Hp. rewrite Hr. destruct (N.eq_dec x (w_next w)) as [->|Hxi].
-    + rewrite (skel_some _ _ _ Hx) in Hi. injection Hi as E _. rewrite Hp in E. injection E as ->.
-      rewrite Nat2N.id. rewrite nth_error_app2 by lia. rewrite Nat.sub_diag. reflexivity.
-    + pose proof (skel_some _ _ _ Hx) as E. rewrite Ho in E by auto.
-      apply skel_inv in E as (n0 & Hn0 & Hp0 & _).
-      assert (Hnth : nth_error (roots w) (N.to_nat m) = Some x) by (eapply c_pmodel; eauto; congruence).
-      rewrite nth_error_app1; auto. apply nth_error_Some. congruence.
   - intros x Ha. apply Hal in Ha as [Ha| ->].
     + destruct (c_depth _ C _ Ha) as (h & Hd). exists h. eapply depth_transfer; eauto.
     + apply skel_inv in Hi as (n' & Hn' & Hp' & _). exists O. eapply D_top; [eauto|rewrite Hp'; congruence].
 Qed.
 
-Lemma orphsub_new_model w w' (S : id -> Prop) pp :
+Lemma orphe_new_model w w' (S : id -> Prop) pp :
   Core w -> (forall x, x <> w_next w -> skel w' x = skel w x) ->
   skel w' (w_next w) = Some (PModel pp, []) ->
-  OrphSub w S -> OrphSub w' S.
+  OrphE w S -> OrphE w' S.
 Proof.
   intros C Ho Hi HO c p Hp. pose proof (core_fresh_none _ C) as Hf.
   destruct (N.eq_dec c (w_next w)) as [->|Hc].
@@ -468,13 +470,6 @@ Proof.
     + apply skel_inv in E as (n' & Hn' & Hp' & _). eauto.
     + rewrite (skel_some _ _ _ Hn0) in Hi. injection Hi as <- _.
       apply skel_inv in Hi' as (n' & Hn' & Hp' & _). exists n'. split; auto. congruence.
-  - intros x n m Hx Hp. rewrite Hr. pose proof (skel_some _ _ _ Hx) as E.
-    destruct (in_dec N.eq_dec x L) as [Hin|Hin].
-    { destruct (HL _ Hin) as (_ & E'). rewrite E' in E. injection E as E _. congruence. }
-    destruct (N.eq_dec x self) as [->|Hxs].
-    + rewrite Hi' in E. injection E as E _. apply skel_inv in Hi as (n0 & Hn0 & Hp0 & _).
-      eapply c_pmodel; eauto. congruence.
-    + rewrite Ho in E by auto. apply skel_inv in E as (n0 & Hn0 & Hp0 & _). eapply c_pmodel; eauto. congruence.
   - assert (Hall : forall x h, Depth w x h -> exists h', Depth w' x h').
     { intros x h Hd. induction Hd as [x n Hx Ht | x n p h Hx Hp Hd IH].
       - destruct (in_dec N.eq_dec x L) as [Hin|Hin].
@@ -503,7 +498,7 @@ Qed.
 
 Hypothesis Hdown : forall p c, In p L -> lists w p c -> In c L.
 
-Lemma orphsub_clear (S : id -> Prop) : OrphSub w S -> OrphSub w' S.
+Lemma orphe_clear (S : id -> Prop) : OrphE w S -> OrphE w' S.
 Proof.
   intros HO c p Hp.
   assert (HcL : ~ In c L).
@@ -516,4 +511,71 @@ Proof.
     intros ->. auto.
   - rewrite Ho by auto. eauto.
 Qed.
+Lemma orphsub_clear (S : id -> Prop) : OrphSub w S -> OrphSub w' S.
+Proof.
+  intros (H & R). split; [apply orphe_clear; auto|]. apply (rootsonly_mono w w'); [rewrite Hr; auto | | exact R].
+  intros x m ks0 E. destruct (in_dec N.eq_dec x L) as [Hin|Hin].
+    { destruct (HL _ Hin) as (_ & E'). congruence. }
+    destruct (N.eq_dec x self) as [->|Hx].
+    + rewrite Hi' in E. injection E as -> <-. eauto.
+    + rewrite Ho in E by auto. eauto.
+Qed.
 End Clear.
+
+
+(* ------------------------------------------------------------------ OrphSub = OrphE + RootsOnly under the elementary changes *)
+Lemma rootsonly_upd1 w w' i pp ks ks' :
+  upd1 w w' i -> skel w i = Some (pp, ks) -> skel w' i = Some (pp, ks') -> RootsOnly w -> RootsOnly w'.
+Proof.
+  intros (Hn & Hr & Ho) Hi Hi'. apply rootsonly_mono.
+  - rewrite Hr. auto.
+  - intros x m ks0 E. destruct (N.eq_dec x i) as [->|Hx].
+    + rewrite Hi' in E. injection E as -> <-. eauto.
+    + rewrite Ho in E by auto. eauto.
+Qed.
+
+Lemma orphsub_drop w w' i pp ks ks' (S : id -> Prop) :
+  upd1 w w' i -> skel w i = Some (pp, ks) -> skel w' i = Some (pp, ks') ->
+  OrphSub w S -> OrphSub w' (fun x => S x \/ (In x ks /\ ~ In x ks')).
+Proof. intros U Hi Hi' (H & R). split; [eapply orphe_drop; eauto | eapply rootsonly_upd1; eauto]. Qed.
+
+Lemma orphsub_insert w w' i pp ks ks' c0 (S : id -> Prop) :
+  upd1 w w' i -> skel w i = Some (pp, ks) -> skel w' i = Some (pp, ks') ->
+  (forall x, In x ks' <-> x = c0 \/ In x ks) -> par w c0 i ->
+  OrphSub w S -> OrphSub w' (fun x => S x /\ x <> c0).
+Proof. intros U Hi Hi' Hk Hp (H & R). split; [eapply orphe_insert; eauto | eapply rootsonly_upd1; eauto]. Qed.
+
+Lemma orphsub_reparent w w' i pp ks q (S : id -> Prop) :
+  upd1 w w' i -> skel w i = Some (pp, ks) -> skel w' i = Some (PElem q, ks) ->
+  OrphSub w S -> OrphSub w' (fun x => S x \/ x = i).
+Proof.
+  intros U Hi Hi' (H & R). split; [eapply orphe_reparent; eauto|]. destruct U as (Hn & Hr & Ho).
+  apply (rootsonly_mono w w'); [rewrite Hr; auto | | exact R].
+  intros x m ks0 E. destruct (N.eq_dec x i) as [->|Hx]; [congruence|]. rewrite Ho in E by auto. eauto.
+Qed.
+
+Lemma orphsub_alloc w w' pp (S : id -> Prop) :
+  Core w -> alloc1 w w' -> skel w' (w_next w) = Some (pp, []) -> (forall m, pp <> PModel m) ->
+  OrphSub w S -> OrphSub w' (fun x => S x \/ (x = w_next w /\ pp <> PNone)).
+Proof.
+  intros C U Hi Hpp (H & R). split; [eapply orphe_alloc; eauto|]. destruct U as (Hn & Hr & Ho).
+  apply (rootsonly_mono w w'); [rewrite Hr; auto | | exact R].
+  intros x m ks0 E. destruct (N.eq_dec x (w_next w)) as [->|Hx].
+    + rewrite Hi in E. injection E as -> _. exfalso. eapply Hpp; eauto.
+    + rewrite Ho in E by auto. eauto.
+Qed.
+
+Lemma orphsub_new_model w w' (S : id -> Prop) :
+  Core w -> roots w' = roots w ++ [w_next w] -> (forall x, x <> w_next w -> skel w' x = skel w x) ->
+  skel w' (w_next w) = Some (PModel (N.of_nat (List.length (roots w))), []) ->
+  OrphSub w S -> OrphSub w' S.
+Proof.
+  intros C Hr Ho Hi (H & R). split; [eapply orphe_new_model; eauto|].
+  intros x n m Hx Hm. rewrite Hr. destruct (N.eq_dec x (w_next w)) as [->|Hxi].
+  - rewrite (skel_some _ _ _ Hx) in Hi. injection Hi as E _. rewrite Hm in E. injection E as ->.
+    rewrite Nat2N.id. rewrite nth_error_app2 by lia. rewrite Nat.sub_diag. reflexivity.
+  - pose proof (skel_some _ _ _ Hx) as E. rewrite Ho in E by auto.
+    apply skel_inv in E as (n0 & Hn0 & Hp0 & _).
+    assert (Hnth : nth_error (roots w) (N.to_nat m) = Some x) by (eapply R; eauto; congruence).
+    rewrite nth_error_app1; auto. apply nth_error_Some. congruence.
+Qed.
